@@ -114,21 +114,31 @@ pub struct Decision {
     pub dist: usize,
 }
 
-/// Which edges count as membership when computing a permission (the plain model uses `Member`
-/// only; the others exist to classify a failure).
-#[derive(Clone, Copy, PartialEq, Eq)]
-pub enum Extra {
-    None,
+/// Hypotheses that can be switched on (singly or combined) when computing a permission. The
+/// plain model uses none of them; they exist only to classify a failure.
+#[derive(Clone, Copy, PartialEq, Eq, Debug)]
+pub struct Extra(pub u8);
+
+#[allow(non_upper_case_globals)]
+impl Extra {
+    pub const None: Extra = Extra(0);
     /// count stale (expired, not yet reaped) grants as live
-    Stale,
-    /// treat every harness-made edge between principals whose type starts with "MEMBER" as membership
-    MemberPrefixed,
-    /// treat every harness-made edge between principals as membership
-    AnyEdge,
-    /// treat a non-access edge pointing at the secret as a grant
-    EdgeToSecret,
+    pub const Stale: Extra = Extra(1);
     /// count grants of a delegation that was revoked but whose record no longer listed the secret
-    Orphans,
+    pub const Orphans: Extra = Extra(2);
+    /// treat every harness-made edge between principals whose type starts with "MEMBER" as membership
+    pub const MemberPrefixed: Extra = Extra(4);
+    /// treat a non-access edge pointing at the secret as a grant
+    pub const EdgeToSecret: Extra = Extra(8);
+    /// treat every harness-made edge between principals as membership
+    pub const AnyEdge: Extra = Extra(16);
+
+    pub fn has(self, o: Extra) -> bool {
+        self.0 & o.0 != 0
+    }
+    pub fn with(self, o: Extra) -> Extra {
+        Extra(self.0 | o.0)
+    }
 }
 
 impl Model {
@@ -169,11 +179,11 @@ impl Model {
                     next.insert(t);
                 }
             }
-            if extra == Extra::MemberPrefixed || extra == Extra::AnyEdge {
+            if extra.has(Extra::MemberPrefixed) || extra.has(Extra::AnyEdge) {
                 for (&(f, t, ty), &n) in &self.other_pp {
                     if f == cur && n > 0 {
                         let name = other_types[ty as usize];
-                        if extra == Extra::AnyEdge || name.starts_with("MEMBER") {
+                        if extra.has(Extra::AnyEdge) || name.starts_with("MEMBER") {
                             next.insert(t);
                         }
                     }
@@ -213,21 +223,21 @@ impl Model {
                     }
                 }
             }
-            if extra == Extra::Stale {
+            if extra.has(Extra::Stale) {
                 for &(p, ss, level) in &self.stale {
                     if p == g && ss == s {
                         consider(level);
                     }
                 }
             }
-            if extra == Extra::Orphans {
+            if extra.has(Extra::Orphans) {
                 for &(p, ss, level) in &self.orphans {
                     if p == g && ss == s {
                         consider(level);
                     }
                 }
             }
-            if extra == Extra::EdgeToSecret {
+            if extra.has(Extra::EdgeToSecret) {
                 for (&(f, ss, _), &n) in &self.other_ps {
                     if f == g && ss == s && n > 0 {
                         consider(ADMIN);
